@@ -153,7 +153,8 @@ static std::string gepPath(Type *srcTy, ArrayRef<const Value *> idx, FnCtx *fc) 
   for (unsigned i = 0; i < idx.size(); i++) {
     if (i) s += ",";
     if (first) {
-      s += "[\"*\"," + opnd(idx[i], fc) + "]";
+      s += "[\"*\"," + opnd(idx[i], fc) + "," +
+           std::to_string(cur->isSized() ? (uint64_t)DL->getTypeAllocSize(cur) : 0) + "]";
       first = false;
       continue;
     }
@@ -163,10 +164,12 @@ static std::string gepPath(Type *srcTy, ArrayRef<const Value *> idx, FnCtx *fc) 
       s += "[" + jstr(nm) + "," + std::to_string(k) + "]";
       cur = st->getElementType(k);
     } else if (auto *at = dyn_cast<ArrayType>(cur)) {
-      s += "[\"[]\"," + opnd(idx[i], fc) + "," + std::to_string(at->getNumElements()) + "]";
+      s += "[\"[]\"," + opnd(idx[i], fc) + "," + std::to_string(at->getNumElements()) + "," +
+           std::to_string((uint64_t)DL->getTypeAllocSize(at->getElementType())) + "]";
       cur = at->getElementType();
     } else if (auto *vt = dyn_cast<VectorType>(cur)) {
-      s += "[\"[]\"," + opnd(idx[i], fc) + ",0]";
+      s += "[\"[]\"," + opnd(idx[i], fc) + ",0," +
+           std::to_string((uint64_t)DL->getTypeAllocSize(vt->getElementType())) + "]";
       cur = vt->getElementType();
     } else {
       s += "[\"?\"]";
